@@ -8,3 +8,6 @@ pub use broker::{Broker, LinkType, Server};
 
 // pub trait IO: AsyncRead + AsyncWrite + Send + Sync + Unpin {}
 // impl<T: AsyncRead + AsyncWrite + Send + Sync + Unpin> IO for T {}
+
+#[cfg(rumqtt_verif)]
+pub use broker::verif_stack;
